@@ -50,9 +50,10 @@ type RepairIn struct {
 	AnnotSec       int64     `json:"annotSec"`      // for "time": whole seconds since t0
 	Others         []RNode   `json:"others"`        // the other Nodes of the cluster
 	Now            int64     `json:"now"`
-	ClaimListFault bool      `json:"claimListFault"` // listing the NodeClaim of the node fails
-	NodeListFault  string    `json:"nodeListFault"`  // listing the pool's / cluster's nodes: "" | "err" | "notfound"
-	PatchFault     string    `json:"patchFault"`     // annotating the NodeClaim
+	ClaimListFault bool      `json:"claimListFault"`         // listing the NodeClaim of the node fails
+	ClaimListErr   string    `json:"claimListErr,omitempty"` // ... with this error class (apiErrClasses; "" = "err")
+	NodeListFault  string    `json:"nodeListFault"`          // listing the pool's / cluster's nodes: "" | one of apiErrClasses
+	PatchFault     string    `json:"patchFault"`             // annotating the NodeClaim
 	DeleteFault    string    `json:"deleteFault"`
 	// frame: durations the NodeClaim carries that are no part of the repair trigger (null = unset / Never)
 	ClaimTGP         *int64 `json:"claimTgp,omitempty"`         // spec.terminationGracePeriod, ns
@@ -255,15 +256,25 @@ func genRepair(r *rand.Rand, _ core.Tier) any {
 	case x < 0.13:
 		in.Annot = "garbage"
 	}
-	in.ClaimListFault = r.Float64() < 0.04
+	// error classes: half of the faults are "err" / "notfound" (the two the controller tells apart), the other
+	// half uniform over all apiErrClasses
+	cls := func() string {
+		if r.IntN(2) == 0 {
+			return pick(r, []string{"err", "notfound"})
+		}
+		return pick(r, apiErrClasses)
+	}
+	if in.ClaimListFault = r.Float64() < 0.04; in.ClaimListFault {
+		in.ClaimListErr = cls()
+	}
 	if r.Float64() < 0.12 {
-		in.NodeListFault = pick(r, []string{"err", "notfound"})
+		in.NodeListFault = cls()
 	}
 	if r.Float64() < 0.08 {
-		in.PatchFault = pick(r, []string{"err", "notfound"})
+		in.PatchFault = cls()
 	}
 	if r.Float64() < 0.08 {
-		in.DeleteFault = pick(r, []string{"err", "notfound"})
+		in.DeleteFault = cls()
 	}
 	return in
 }
@@ -275,10 +286,14 @@ func enumRepair(_ core.Tier) []any {
 	bad := []RCond{{Type: "BadNode", Status: "False", Since: sec(1000)}}
 	good := []RCond{{Type: "BadNode", Status: "True", Since: sec(1000)}, {Type: "Ready", Status: "True", Since: sec(1000)}}
 	type ft struct {
-		claimList            bool
-		nodeList, patch, del string
+		claimList                      bool
+		claimErr, nodeList, patch, del string
 	}
-	faults := []ft{{}, {claimList: true}, {nodeList: "err"}, {nodeList: "notfound"}, {patch: "err"}, {patch: "notfound"}, {del: "err"}, {del: "notfound"}}
+	// every single fault position x every API error class
+	faults := []ft{{}}
+	for _, cls := range apiErrClasses {
+		faults = append(faults, ft{claimList: true, claimErr: cls}, ft{nodeList: cls}, ft{patch: cls}, ft{del: cls})
+	}
 	for _, claimPool := range []string{"a", ""} {
 		for n := 1; n <= 11; n++ {
 			for u := 1; u <= n && u <= 4; u++ {
@@ -304,7 +319,7 @@ func enumRepair(_ core.Tier) []any {
 								continue
 							}
 							in := RepairIn{Policies: pol, Node: RNode{Name: "node-target", Pool: claimPool, Conds: bad, Terminating: term == "all-unhealthy+target"}, Claims: "one", ClaimPool: claimPool, Others: []RNode{},
-								Now: sec(1000) + sec(1800) + d, ClaimListFault: f.claimList, NodeListFault: f.nodeList, PatchFault: f.patch, DeleteFault: f.del}
+								Now: sec(1000) + sec(1800) + d, ClaimListFault: f.claimList, ClaimListErr: f.claimErr, NodeListFault: f.nodeList, PatchFault: f.patch, DeleteFault: f.del}
 							for i := 0; i < n-1; i++ {
 								o := RNode{Name: fmt.Sprintf("node-%02d", i), Pool: claimPool, Conds: good}
 								if i < u-1 {
@@ -388,10 +403,10 @@ func implRepair(raw json.RawMessage) (any, error) {
 				switch list.(type) {
 				case *v1.NodeClaimList:
 					if in.ClaimListFault {
-						return faultErr("err", "nodeclaims")
+						return apiErr(orErr(in.ClaimListErr), "nodeclaims")
 					}
 				case *corev1.NodeList:
-					if err := faultErr(in.NodeListFault, "nodes"); err != nil {
+					if err := apiErr(in.NodeListFault, "nodes"); err != nil {
 						return err
 					}
 				}
@@ -401,7 +416,7 @@ func implRepair(raw json.RawMessage) (any, error) {
 		Patch: func(ctx context.Context, w client.WithWatch, obj client.Object, patch client.Patch, opts ...client.PatchOption) error {
 			if _, ok := obj.(*v1.NodeClaim); ok && armed {
 				rec.bump("patch")
-				if err := faultErr(in.PatchFault, obj.GetName()); err != nil {
+				if err := apiErr(in.PatchFault, obj.GetName()); err != nil {
 					return err
 				}
 			}
@@ -410,7 +425,7 @@ func implRepair(raw json.RawMessage) (any, error) {
 		Delete: func(ctx context.Context, w client.WithWatch, obj client.Object, opts ...client.DeleteOption) error {
 			if _, ok := obj.(*v1.NodeClaim); ok && armed {
 				rec.deleted(obj.GetName())
-				if err := faultErr(in.DeleteFault, obj.GetName()); err != nil {
+				if err := apiErr(in.DeleteFault, obj.GetName()); err != nil {
 					return err
 				}
 			}
@@ -533,7 +548,7 @@ func repairLabels(raw json.RawMessage, impl any) []string {
 		l = append(l, "breaker:above")
 	}
 	if in.ClaimListFault {
-		l = append(l, "fault:claimList")
+		l = append(l, "fault:claimList", "fault:claimList:"+orErr(in.ClaimListErr))
 	}
 	if in.NodeListFault != "" {
 		l = append(l, "fault:nodeList:"+in.NodeListFault)
